@@ -35,7 +35,7 @@ func pickProfile(r *kit.Rng) profile {
 	if r.Chance(1, 3) {
 		p.keys = []uint32{1, 2}
 	}
-	switch r.Intn(10) {
+	switch r.Intn(11) {
 	case 0, 1, 2:
 		p.name = "contend"
 	case 3, 4:
@@ -61,6 +61,12 @@ func pickProfile(r *kit.Rng) profile {
 		p.sameVals = true
 		p.wCln = 3
 		p.steps = 25 + r.Intn(30)
+	case 10:
+		// a renewal that errors for more than half of its retry window and succeeds on a late
+		// retry, then a storage that fails for good, watched in fine clock steps past lastSuccess + D/2
+		p.name = "late-retry"
+		p.np, p.keys = 2, []uint32{1}
+		p.durs = []int{kit.Pick(r, []int{12, 20, 20, 40, 40, 60})}
 	}
 	if p.durs == nil {
 		n := 1 + r.Intn(2)
@@ -147,6 +153,73 @@ func (p *profile) next(r *kit.Rng, e *exec) (choice, bool) {
 	return choice{}, false
 }
 
+// driveLateRetry scripts the late-retry family: acquire, some clean renewals, one renewal whose
+// first attempt and retries fail until a retry later than half of the interval succeeds, then only
+// failures, with the clock moved by at most one second at a time until well after the bound
+func (p *profile) driveLateRetry(r *kit.Rng, e *exec, sc *scenario) {
+	do := func(c choice) bool {
+		if e.apply(c) {
+			sc.Script = append(sc.Script, c)
+			return true
+		}
+		return false
+	}
+	d := p.durs[0]
+	interval := int64(d) * 1e9 / 4
+	fail := func() string { return kit.Pick(r, []string{"errb", "errb", "erra"}) }
+	step := func() { do(choice{C: "adv", Ns: kit.Pick(r, []int64{1e9, 1e9, 500e6, 250e6})}) }
+	// serve lets the leader's pending storage call (if any) take effect with the outcome and return
+	serve := func(o string) bool {
+		if do(choice{C: "eff", T: "g0", O: o}) {
+			do(choice{C: "ret", T: "g0"})
+			return true
+		}
+		return false
+	}
+	if !do(choice{C: "acq", P: 0, K: 1, V: 10, D: d}) || !do(choice{C: "eff", T: "a0", O: "ok"}) || !do(choice{C: "ret", T: "a0"}) {
+		return
+	}
+	if len(e.lis) == 0 {
+		return
+	}
+	for n := r.Intn(3); n > 0; n-- { // clean renewals
+		for i := 0; i < 100 && !e.enabled(choice{C: "eff", T: "g0", O: "ok"}); i++ {
+			step()
+		}
+		serve("ok")
+	}
+	// the renewal with the late success: r seconds after the tick, interval/2 < r < interval
+	secs := int(interval / 1e9)
+	late := secs/2 + 1 + r.Intn(secs-secs/2-1)
+	for i := 0; i < 100 && !e.enabled(choice{C: "eff", T: "g0", O: "ok"}); i++ {
+		step()
+	}
+	t0 := e.r.nowNs()
+	for n := 0; n < 200 && e.err == nil; n++ {
+		if e.enabled(choice{C: "eff", T: "g0", O: "ok"}) {
+			if e.r.nowNs()-t0 >= int64(late)*1e9 {
+				serve("ok")
+				break
+			}
+			serve(fail())
+		} else {
+			step()
+		}
+	}
+	// a bystander tries to take over now and then; the storage fails for good
+	end := e.r.nowNs() + int64(d)*1e9
+	for n := 0; n < 400 && e.err == nil && e.r.nowNs() < end; n++ {
+		switch {
+		case serve(fail()):
+		case r.Chance(1, 12) && do(choice{C: "acq", P: 1, K: 1, V: 11, D: d}):
+			do(choice{C: "eff", T: "a1", O: "ok"})
+			do(choice{C: "ret", T: "a1"})
+		default:
+			step()
+		}
+	}
+}
+
 // epilogue: let every held call through, let time pass timer by timer, clean everybody up and
 // let the longest leadership duration elapse, so that a context that is never cancelled shows
 func (e *exec) epilogue() {
@@ -230,7 +303,9 @@ func runScenario(sc *scenario, p *profile, r *kit.Rng) (kit.Case, error) {
 			e.seenG[id] = true
 		}
 	}
-	if p != nil {
+	if p != nil && p.name == "late-retry" {
+		p.driveLateRetry(r, e, sc)
+	} else if p != nil {
 		for n := 0; n < p.steps && e.err == nil; n++ {
 			c, ok := p.next(r, e)
 			if !ok {
